@@ -40,6 +40,8 @@ def specs(tier):
             out.append({'mech': 'mwem', 'eps': eps, 'delta': delta, 'noise': noise, 'bounded': bounded, 'rounds': rounds, 'alpha': alpha})
         if tier == 'quick':
             out.append({'mech': 'mwem', 'eps': eps, 'delta': delta, 'noise': 'gaussian', 'bounded': False, 'rounds': 2, 'alpha': 0.5})
+        # AIM given public structural zeros (no base record lies in the declared cell; one neighbour adds a record there)
+        out.append({'mech': 'aim', 'eps': eps, 'delta': delta, 'rounds': 4, 'workload': [['A', 'B'], ['B', 'C']], 'zeros': [[['A', 'B'], [[0, 1]]]], 'ds': ['conc6']})
         # seven attributes: 21 candidate pairs for the spanning-tree selections
         out.append({'mech': 'adagrid', 'eps': eps, 'delta': delta, 'targets': [], 'split': None, 'threshold': 5.0, 'sizes': [2] * 7})
         # budget fractions that are each <= 1 but do not sum to 1 (the mechanism normalises them)
@@ -66,6 +68,8 @@ def jobs(tier, seed):
             dss = ['conc6', 'spread20'] if not spec.get('bounded') else ['conc6', 'single']
         if 'sizes' in spec:
             dss = ['spread20']
+        if 'ds' in spec:
+            dss = spec['ds']
         for ds in dss:
             bound = 1 if tier == 'quick' else 2
             cap = None if tier == 'quick' else (150 if spec['mech'] in ('aim', 'mwem') else 120)
@@ -75,7 +79,7 @@ def jobs(tier, seed):
             if 'sizes' in spec:
                 bound = 0 if tier == 'quick' else 1
                 cap = 40
-            out.append({'spec': {k: v for k, v in spec.items() if k != 'sizes'}, 'ds': ds, 'sizes': spec.get('sizes', sizes), 'bound': bound, 'alts': QUICK_ALTS if tier == 'quick' else FULL_ALTS,
+            out.append({'spec': {k: v for k, v in spec.items() if k not in ('sizes', 'ds')}, 'ds': ds, 'sizes': spec.get('sizes', sizes), 'bound': bound, 'alts': QUICK_ALTS if tier == 'quick' else FULL_ALTS,
                         'seed': seed, 'cap': cap})
     for rounds in ([1, 2, 3, 4, 6] if tier == 'quick' else [1, 2, 3, 4, 6, 8]):
         for wl in [[['A', 'B'], ['B', 'C']], [list(p) for p in PAIRS], [['A', 'B']]]:
